@@ -134,3 +134,49 @@ Definition check_case (c : case) : list string := nodup string_dec (check_items 
 
 Definition check_all (cs : list (Z * case)) : list (Z * string) :=
   flat_map (fun ic => map (fun t => (fst ic, t)) (check_case (snd ic))) cs.
+
+(* ---- boolean versions of the theorem's hypotheses (proved sound in C11/Proofs2.v) ---- *)
+Definition uniq_pids_b (a : api) : bool :=
+  forallb (fun kv1 => forallb (fun kv2 =>
+      negb (trackable (snd kv1) && trackable (snd kv2) && (epid (snd kv1) =s epid (snd kv2))) || (fst kv1 =s fst kv2))
+    (a_nodes a)) (a_nodes a) &&
+  forallb (fun kv1 => forallb (fun kv2 =>
+      (c_pid (snd kv1) =s "") || negb (c_pid (snd kv1) =s c_pid (snd kv2)) || (fst kv1 =s fst kv2))
+    (a_claims a)) (a_claims a) &&
+  forallb (fun kv => negb (fst kv =s "")) (a_nodes a).
+
+Definition op_ok_b (a : api) (c : cache) (o : op) : bool :=
+  match o with
+  | SetNode nd =>
+      uniq_pids_b (api_step a o) &&
+      (negb (trackable nd) || forallb (fun kv => negb (snd kv =s epid nd) || (fst kv =s n_name nd)) (n2p c)) &&
+      (negb (has (n_name nd) (n2p c)) || trackable nd)
+  | SetClaim cl =>
+      uniq_pids_b (api_step a o) &&
+      ((c_pid cl =s "") || forallb (fun kv => negb (snd kv =s c_pid cl) || (fst kv =s c_name cl)) (c2p c)) &&
+      (match aget (c_name cl) (c2p c) with Some X => (X =s "") || negb (c_pid cl =s "") | None => true end)
+  | _ => true
+  end.
+
+Fixpoint hist_ok_from_b (s : api * cache) (ops : list op) : bool :=
+  match ops with
+  | [] => true
+  | o :: t => op_ok_b (fst s) (snd s) o && hist_ok_from_b (step s o) t
+  end.
+Definition hist_ok_b (ops : list op) : bool := hist_ok_from_b (api0, cache0) ops.
+
+Definition pods_settled_b (a : api) : bool :=
+  forallb (fun kp => p_term (snd kp) || (p_node (snd kp) =s "") ||
+                     match spec_n2p a (p_node (snd kp)) with Some _ => true | None => false end) (a_pods a).
+
+Definition is_deliver_b (o : op) : bool :=
+  match o with DeliverNode _ | DeliverClaim _ | DeliverPod _ => true | _ => false end.
+
+Definition delivers_node (m : string) (o : op) : bool := match o with DeliverNode m' => m' =s m | _ => false end.
+Definition delivers_claim (k : string) (o : op) : bool := match o with DeliverClaim k' => k' =s k | _ => false end.
+Definition delivers_pod (k : string) (o : op) : bool := match o with DeliverPod k' => k' =s k | _ => false end.
+
+Definition covers_b (a : api) (c : cache) (r : list op) : bool :=
+  forallb (fun m => existsb (delivers_node m) r) (keys (a_nodes a) ++ keys (n2p c)) &&
+  forallb (fun k => existsb (delivers_claim k) r) (keys (a_claims a) ++ keys (c2p c)) &&
+  forallb (fun k => existsb (delivers_pod k) r) (keys (binds c)).
